@@ -106,6 +106,11 @@ SCENARIOS = {
                                    ["memoize", "f#1", 0, 9122, "B", 9121, 40, "ov/a"], ["getm", "f#1", 0], ["lmems", "f#1"], ["read", "f#1", 0],
                                    ["memoize", "f#1", 0, 9123, "B", 9121, 40, None], ["getm", "f#1", 0], ["wmeta", "f#1", 0, "log", 9124, True], ["rmeta", "f#1", 0, "log"],
                                    ["memoize", "g#1", 1, 9125, "B", 9121, 40, None], ["getm", "g#1", 1], ["getm", "f#1", 0]],
+    "metadata-keys-that-are-prefixes": [["memoize", "f#1", 0, 9131, "b", 9131, 40, None], ["wmeta", "f#1", 0, "log", 9132, False], ["wmeta", "f#1", 0, "logs", 9133, False],
+                                        ["wmeta", "f#1", 0, "log.x", 9134, False], ["wmeta", "f#1", 0, "lo", 9135, True], ["wmeta", "f#1", 0, "log", 9136, True],
+                                        ["rmeta", "f#1", 0, "logs"], ["rmeta", "f#1", 0, "log.x"], ["rmeta", "f#1", 0, "lo"], ["rmeta", "f#1", 0, "log"],
+                                        ["wmeta", "f#1", 0, "lo", 9137, False], ["rmeta", "f#1", 0, "log"], ["rmeta", "f#1", 0, "logs"], ["rmeta", "f#1", 0, "log.x"],
+                                        ["wmeta", "f#1", 0, "logs", 9138, True], ["rmeta", "f#1", 0, "log"], ["rmeta", "f#1", 0, "logs"], ["rmeta", "f#1", 0, "lo"]],
     "oversize-rememoize": [["memoize", "f#1", 0, 9021, "b", 9021, 100, None], ["read", "f#1", 0],
                            ["memoize", "f#1", 0, 9022, "b", 9022, 9000, None], ["read", "f#1", 0]],
     "stale-weakref": [["memoize", "f#1", 0, 9031, "n", 9031, 200, None], ["memoize", "f#1", 0, 9032, "b", 9032, 200, None],
